@@ -58,7 +58,7 @@ func unpackZip(
 	// Convert the raw byte reader to a zip stream.
 	zr, err := zip.NewReader(readerAt, readerAt.Size())
 	if err != nil {
-		return api.WareID{}, api.WareID{}, err
+		return api.WareID{}, api.WareID{}, Errorf(rio.ErrWareCorrupt, "corrupt zip: %s", err)
 	}
 
 	// Allocate bucket for keeping each metadata entry and content hash;
